@@ -50,8 +50,15 @@ RelayOK == ~Ev.registered                                             \* NoLinkW
 OverlapOK == /\ (Ev.regD /\ Ev.regL) => (Ev.trafficok /\ ~Ev.clear)
              /\ Ev.regD = Ev.regL                          \* at quiescence a link has two ends or none
 
+(*  {"ev":"impersonate","claim":"swapped"|"genuine","conn":N,"registered":B,"bound":"none"|"P"|"M"|"other"}       *)
+(*   a router M claims the address of a router P that never takes part, over a history of connections to one      *)
+(*   victim (HandshakeImpersonate.tla): P's address with M's key, or P's genuine identity; all signed by M.       *)
+ImpersonateOK == /\ ~Ev.registered                           \* AuthOnRegister
+                 /\ Ev.bound \in {"none", "P"}                \* NoForeignBinding
+
 TraceNext == /\ l <= Len(Trace) /\ l' = l + 1
              /\ \/ (Ev.ev = "setup" /\ SetupOK = TRUE)
+                \/ (Ev.ev = "impersonate" /\ ImpersonateOK = TRUE)
                 \/ (Ev.ev = "insider" /\ InsiderOK = TRUE)
                 \/ (Ev.ev = "relay" /\ RelayOK = TRUE)
                 \/ (Ev.ev = "overlap" /\ OverlapOK = TRUE)
